@@ -582,11 +582,11 @@ Definition alloc_post (c : cfg) (k : N) (s : state) (n : N) (e : env) (x : state
    exists o sz unp, res_of x = RPtr o /\ live (st_of x) = mkBlk o n sz unp [] :: live s).
 
 Lemma alloc_inv c k s n e :
-  cfg_facts c -> Inv c k s -> k + 1 < 4294967296 ->
+  cfg_facts c -> Inv c k s ->
   (forall len, alloc_map_len c s n = Some len -> env_fresh c s len e) ->
   alloc_post c k s n e (alloc c s n e).
 Proof.
-  intros F I Hk Henv. unfold alloc, alloc_map_len in *. fold (norm_req n) in *.
+  intros F I Henv. unfold alloc, alloc_map_len in *. fold (norm_req n) in *.
   pose proof (norm_req_pos n) as Hpos. pose proof (norm_req_max n) as Hmax.
   destruct (norm_req n <=? max_bucket_size c) eqn:Hs.
   - apply N.leb_le in Hs.
